@@ -28,6 +28,7 @@ fn main() {
         "sched" => seq::engine_sched(cases, &mut out),
         "crash" => seq::engine_crash(cases, &mut out),
         "free" => seq::engine_free(&rt, cases, &mut out),
+        "trans" => seq::engine_trans(cases, &mut out),
         "overtake" => seq::engine_overtake(&rt, cases, &mut out),
         other => {
             eprintln!("unknown engine {other}");
